@@ -5,7 +5,13 @@ import random
 def run_sat(case):
     from solvor import _verif
     from solvor.sat import solve_sat
-    clauses = case["clauses"]
+    clauses = [list(c) for c in case["clauses"]]
+    if case.get("alias"):
+        # one clause object listed at several positions (clauses += [c] * 2, a reused constraint): equal clauses share a list
+        pool = {}
+        call_clauses = [pool.setdefault(tuple(c), list(c)) for c in clauses]
+    else:
+        call_clauses = [list(c) for c in clauses]
     tr = {"clauses": clauses, "assumptions": case.get("assumptions", []), "limit": case.get("limit", 1),
           "max_conflicts": case.get("max_conflicts", 100000), "max_restarts": case.get("max_restarts", 10000),
           "luby_factor": case.get("luby_factor", 100), "planted": case.get("planted", []), "input": case}
@@ -27,7 +33,7 @@ def run_sat(case):
                     orig_emit(kind, **f)
         _verif.emit = emit
     try:
-        r = solve_sat(clauses, assumptions=case.get("assumptions") or None, max_conflicts=tr["max_conflicts"],
+        r = solve_sat(call_clauses, assumptions=case.get("assumptions") or None, max_conflicts=tr["max_conflicts"],
                       max_restarts=tr["max_restarts"], solution_limit=tr["limit"], luby_factor=tr["luby_factor"])
         def lits(d):
             return sorted((v if b else -v) for v, b in d.items())
@@ -124,6 +130,11 @@ def gen_random(rng, n, big=True):
             c.update(params(rng))
             c["luby_factor"] = rng.choice([1, 3])
             c["limit"] = rng.choice([1, 1, 2, 5])
+        if rng.random() < 0.3:
+            longs = [cl for cl in c["clauses"] if len(cl) >= 3]
+            for _ in range(rng.randint(1, 3) if longs else 0):
+                c["clauses"].insert(rng.randint(0, len(c["clauses"])), list(rng.choice(longs)))
+            c["alias"] = True
         allv = sorted({abs(x) for cl in c["clauses"] for x in cl})
         if rng.random() < 0.35 and allv:
             k = rng.randint(1, min(3, len(allv)))
